@@ -175,9 +175,32 @@ def resToPred : Res (List Row) → Pred
   | .overflow => .err "err:overflow"
   | .unsupported => .unknown
 
+/-- The one spurious Overflow the engine raises on an exactly representable result and that C06's wording allows ("exact or
+    the query fails"): `(i64::MIN + 1) / -1` (numeric_operators.rs: the guard is `lhs <= -i64::MAX && rhs == -1`).  It is
+    raised for every row the expression is evaluated on — all rows that pass the WHERE clause, in every partition, whatever
+    LIMIT says — hence in every layout: layout independent, C06's documented quirk (docs/C06.md, `spuriousDiv`). -/
+def spuriousDiv : Expr → Row → Bool
+  | .arith op l r, row =>
+      spuriousDiv l row || spuriousDiv r row ||
+      (op == .div && eval i2fNative l row == .val (.int (I64_MIN + 1)) && eval i2fNative r row == .val (.int (-1)))
+  | .cmp _ l r, row => spuriousDiv l row || spuriousDiv r row
+  | .and l r, row => spuriousDiv l row || spuriousDiv r row
+  | .or l r, row => spuriousDiv l row || spuriousDiv r row
+  | .not e, row => spuriousDiv e row
+  | .isNull e, row => spuriousDiv e row
+  | .isNotNull e, row => spuriousDiv e row
+  | _, _ => false
+
+/-- some projected expression meets the spurious division on a row that passes the WHERE clause -/
+def spuriousSel (c : Case) : Bool :=
+  match filterRows i2fNative c.pred c.rows with
+  | .ok kept => kept.any fun row => c.exprs.any (spuriousDiv · row)
+  | _ => false
+
 /-! ### sel -/
 
 def physSel (c : Case) (split : List Nat) : Pred :=
+  if spuriousSel c then .err "err:overflow" else
   let q := selQ c
   let parts := (splitRows split c.rows).filter (fun p => !p.isEmpty)
   match Res.all (parts.map (selectRows i2fNative q)) with
@@ -446,17 +469,15 @@ def intRangeWide (part : List Row) (k : Nat) : Bool :=
   | [] => false
   | v :: t => t.foldl max v - t.foldl min v + 2 ≥ 65536
 
-/-- Some partition at least as long as `batch_size` (the executor then streams it) is grouped by hashing rather than
-    by array indexing: ≥ 2 keys through ValRows (packed string column or > 63 key bits), or a single key that is a
-    packed string column or an integer column whose range reaches 2^16 (query.rs: `group_by_plan.max < 1 << 16`). -/
+/-- `groupby-valrows-streamed` (C02/C04), what is left of it after /repo 3cc8efd, b5a9fe3, 5275058: some partition at least as
+    long as `batch_size` (the executor then streams it) is grouped through VALUE ROWS — two or more grouping columns that
+    cannot be bit-packed into one i64 (a packed string column among them, > 63 key bits, or a key beyond ±2^62).
+    The single-key hash grouping (packed string / wide-range integer key) is repaired and no longer covered. -/
 def valRowsStreamed (c : Case) (r : Real) : Bool :=
   let keys := keyCols c
   (splitRows r.split c.rows).any fun p =>
     p.length ≥ r.batchSize &&
-      ((keys.length ≥ 2 && (keys.any (packedStringCol p) || wideIntKeys p keys || keys.any (extremeIntKey p))) ||
-       (match keys with
-        | [k] => packedStringCol p k || intRangeWide p k
-        | _ => false))
+      (keys.length ≥ 2 && (keys.any (packedStringCol p) || wideIntKeys p keys || keys.any (extremeIntKey p)))
 
 /-- `groupby-compressed-key-type` (C04/C02): with two or more bit-packed grouping columns the decoded key of a column whose
     data section is pco/lz4-compressed is cast to the width of the COMPRESSED section (u8) instead of the decoded
@@ -594,7 +615,10 @@ def stepCase (c : Case) : String :=
         let expected := (resToPred spec).show
         let model := reals.map fun (_, r) => if classifyObs r.obs ≠ "" then Pred.unknown else physSel c r.split
         let modelS := if model.any (fun p => match p with | .unknown => true | _ => false) then "?" else " ".intercalate (model.map Pred.show)
-        let verdicts := reals.map fun (i, r) => (i, if r.out = expected then "OK" else "differs-from-reference")
+        -- C06's documented spurious Overflow of `(i64::MIN+1) / -1` is accepted instead of the exact rows — but only
+        -- from EVERY realisation: the answer must still be the same in all layouts
+        let spuriousAll := spuriousSel c && c.reals.all (fun r => r.out = "err:overflow")
+        let verdicts := reals.map fun (i, r) => (i, if r.out = expected || spuriousAll then "OK" else "differs-from-reference")
         match firstBad verdicts with
         | none => modelS ++ "\tOK"
         | some (i, why) =>
